@@ -106,6 +106,15 @@ CHECKS = {
         note=COMMON_NOTE + "That rust-peg reports some position <= length on a character boundary is trusted.",
         technique="Coq proof (line/column lemma for all positions) + differential execution on prefixes, mutations, random Unicode, nesting to 200",
         design="5/C12"),
+    "C10": dict(
+        text="Theorems: for every layout oracle (hence every width and every threshold rule) and every well-formed definition, the formatter's output is a grammar rendering of the definition "
+             "with members grouped by kind; it parses back to exactly that definition (name, docs, per-kind order, names, types); formatting the parsed result reproduces the text byte for "
+             "byte; every grammar rendering parses to its definition. Tie: model parser and model formatter (thresholds of format.rs) against IDL::try_from / get_multiline / Display / "
+             "get_multiline_colored on decorated grammar-directed definitions x widths 0..200 and huge ones; implementation-only oracles: re-parse equality, idempotence, colour strip. "
+             "The colored twin is not modelled: its clause is decided by the colour-strip oracle on the implementation.",
+        note=COMMON_NOTE + "That parsing yields well-formed trees (the converse direction) is not proved; the harness checks it on every generated case.",
+        technique="Coq proof (rendering relation: format => Renders => parse, by mutual induction over the grammar) + differential execution over widths",
+        design="5/C10"),
 }
 
 ALL = ["C%02d" % i for i in range(1, 21)]
